@@ -120,6 +120,11 @@ func (c *Conversation) maybeRetransmit() ([]messageWithHeader, error) {
 		return nil, nil
 	}
 
+	if c.msgState != encrypted {
+		// nothing can be sent yet: keep what is waiting for the session to start
+		return nil, nil
+	}
+
 	return c.retransmit()
 }
 
